@@ -261,6 +261,70 @@ theorem C28_witness_user_error :
         [rSubmit "42".toList, rGone, ⟨0, "42 FAILED 1:0\n".toList, []⟩]).verdict
       = .raised "Exception" "ValueError: boom".toList := by decide
 
+/-! ### `load_and_run` -/
+
+/-- the `Result(...)` calls of both error paths use only fields of `Result` and give every field without default
+    (regenerated from job.py / result.py); the handlers have the modelled shape -/
+theorem C28_load_and_run_pinned :
+    EnvRegexes.loadAndRunResultKwargs.map (ctorOK EnvRegexes.resultFields EnvRegexes.resultMandatoryFields) = [true, true]
+    ∧ EnvRegexes.loadAndRunHandlers =
+      [["if job_pkl.parent.exists():", "raise"],
+       ["errorfile = job.cache_dir / '_error.pklz'", "if not errorfile.exists():", "if not resultfile.exists():",
+        "e.add_note(f' full crash report is here: {errorfile}')", "raise"]] := ⟨by decide, rfl⟩
+
+/-- FULL (after repairs D72 and D72s), every situation of the batch script and either way of passing the pickle's
+    location (str or Path): an unloadable job pickle leaves an errored result and an error file next to it and re-raises
+    the loader's exception; a job that raises without having saved a result gets an errored result (and an error file if
+    it has none); a result saved by the job itself is kept; in every failing case the original exception is the one
+    re-raised; a successful run writes nothing extra. -/
+theorem C28_load_and_run (argIsPath : Bool) (i : LRIn)
+    (hp : i.pklIsPath = handlerSeesPath EnvRegexes.loadAndRunConvertsPath argIsPath) :
+    let o := loadAndRun true true i
+    (i.pickleLoads = false → o.exc = .original ∧ o.erroredResultWritten = i.parentExists ∧ o.errorFileWritten = i.parentExists)
+    ∧ (i.pickleLoads = true → i.runRaises = true →
+        o.exc = .original ∧ o.erroredResultWritten = !i.resultByRun ∧ o.resultKept = i.resultByRun
+        ∧ o.errorFileWritten = !i.errorByRun)
+    ∧ (i.pickleLoads = true → i.runRaises = false → o = ⟨.none, false, false, true⟩) := by
+  have hc : handlerSeesPath EnvRegexes.loadAndRunConvertsPath argIsPath = true := by
+    cases argIsPath <;> rfl
+  rw [hc] at hp
+  obtain ⟨p, a, b, c, d, e⟩ := i
+  simp only at hp
+  subst hp
+  cases a <;> cases b <;> cases c <;> cases d <;> cases e <;> decide
+
+/-- WITNESS (D72s, repaired): before `job_pkl = Path(job_pkl)` the batch scripts' str argument reached the
+    unloadable-pickle handler, where `job_pkl.parent` raised AttributeError: the loader's exception was masked, no
+    errored result and no error file were written -/
+theorem C28_witness_D72s :
+    handlerSeesPath false false = false
+    ∧ loadAndRun true true ⟨false, false, true, false, false, false⟩ = ⟨.attributeError, false, false, false⟩
+    ∧ handlerSeesPath EnvRegexes.loadAndRunConvertsPath false = true
+    ∧ loadAndRun true true ⟨true, false, true, false, false, false⟩ = ⟨.original, true, true, false⟩ := by decide
+
+/-- what the source says now: `load_and_run` converts its argument to a Path before the handler uses `job_pkl.parent`;
+    the SLURM batch script passes a quoted string -/
+theorem C28_batch_script_path_pinned :
+    EnvRegexes.loadAndRunUsesParent = true ∧ EnvRegexes.loadAndRunConvertsPath = true
+    ∧ EnvRegexes.slurmPassesQuotedPath = true := ⟨rfl, rfl, rfl⟩
+
+/-- after a failing batch script a result file exists whenever the job directory does: errored, or the job's own -/
+theorem C28_load_and_run_leaves_result (i : LRIn) (hf : i.pickleLoads = false ∨ i.runRaises = true)
+    (hp : i.parentExists = true) (hpath : i.pklIsPath = true) :
+    (loadAndRun true true i).erroredResultWritten = true ∨ (loadAndRun true true i).resultKept = true := by
+  obtain ⟨p, a, b, c, d, e⟩ := i
+  cases p <;> cases a <;> cases b <;> cases c <;> cases d <;> cases e <;> simp_all [loadAndRun]
+
+/-- WITNESS (D72, repaired): with `Result(output=None, runtime=None, errored=True, task=None)` — unknown field
+    `output`, mandatory `cache_dir` missing — the handler itself raised TypeError, the original exception was masked
+    and no errored result was written, in both error paths -/
+theorem C28_witness_D72 :
+    ctorOK EnvRegexes.resultFields EnvRegexes.resultMandatoryFields ["output", "runtime", "errored", "task"] = false
+    ∧ loadAndRun false false ⟨true, false, true, false, false, false⟩ = ⟨.typeError, false, true, false⟩
+    ∧ loadAndRun false false ⟨true, true, true, true, false, false⟩ = ⟨.typeError, false, true, false⟩
+    ∧ loadAndRun true true ⟨true, false, true, false, false, false⟩ = ⟨.original, true, true, false⟩
+    ∧ loadAndRun true true ⟨true, true, true, true, false, false⟩ = ⟨.original, true, true, false⟩ := by decide
+
 /-! ### SGE -/
 
 /-- the facts about the source the SGE model rests on: `threads_used` is created by `dict`, and `run` executes
